@@ -308,6 +308,8 @@ def check_written_back(wbhex, wbn, alt):
 
 def compare_c31(rec, obs):
     """obs: driver observations (open + sends). Returns None if some policy alternative matches."""
+    if isinstance(obs, dict) and obs.get("hang"):
+        raise vkit.InfraError("driver shard timed out (machine overloaded?): %s" % obs.get("crash", "")[:200])
     if not isinstance(obs, dict) or "obs" not in obs:
         return "driver: %s" % (obs.get("crash") if isinstance(obs, dict) else obs)
     steps = obs["obs"]
@@ -373,7 +375,7 @@ def run_records(chk, exe, recs, rnd, *, label, singles, multis, k2_open, bytewis
             meta.append((rec, lab, cuts))
     import time
     t0 = time.time()
-    outs = vkit.run_driver(exe, scen, timeout=900)
+    outs = vkit.run_driver(exe, scen, timeout=3000)
     vkit.log("[drv] %s: %d runs in %.1fs" % (label[:40], len(scen), time.time() - t0))
     nfail = 0
     for (rec, lab, cuts), sc, o in zip(meta, scen, outs):
